@@ -7,6 +7,8 @@ import (
 	"go/types"
 	"math/big"
 	"strings"
+
+	"golang.org/x/tools/go/ssa"
 )
 
 const preludeDecls = `(declare-datatypes ((Path 0)) (((pnil) (pfld (ppar Path) (pfid Int)) (pidx (ppar2 Path) (pix Int)))))
@@ -17,16 +19,47 @@ const preludeDecls = `(declare-datatypes ((Path 0)) (((pnil) (pfld (ppar Path) (
 (declare-sort F64 0)
 (declare-sort Opaque 0)`
 
-func init() {
-	TC.sortDecls = append(TC.sortDecls, preludeDecls)
-}
-
 var (
-	PNil    = App("pnil", "Path")
-	NilLoc  = App("mkloc", "Loc", IntLit(0), PNil)
-	NilSlc  = App("mkslice", "Slice", NilLoc, IntLit(0), IntLit(0), IntLit(0))
+	PNil    *Term
+	NilLoc  *Term
+	NilSlc  *Term
 	NilFace *Term
 )
+
+// resetGlobals starts a fresh term context: every function (and lemma) is translated and
+// printed independently of the others.
+func resetGlobals(seqStrings bool) {
+	TC = NewTermCtx()
+	True = TC.intern(&Term{Op: "bool", Name: "true", Sort: "Bool"})
+	False = TC.intern(&Term{Op: "bool", Name: "false", Sort: "Bool"})
+	TC.sortDecls = append(TC.sortDecls, preludeDecls)
+	PNil = App("pnil", "Path")
+	NilLoc = App("mkloc", "Loc", IntLit(0), PNil)
+	NilSlc = App("mkslice", "Slice", NilLoc, IntLit(0), IntLit(0), IntLit(0))
+	NilFace = nil
+	axiomsBySym = map[string][]*Term{}
+	structByKey = map[string]*structInfo{}
+	nextFid = 1
+	fidName = map[int]string{}
+	typeIDs = map[string]int{}
+	typeByID = map[int]types.Type{}
+	declaredSorts = map[string]bool{}
+	f64Consts = map[string]*Term{}
+	opaqueZero = map[string]*Term{}
+	globalIDs = map[*ssa.Global]int64{}
+	funcIDs = map[*ssa.Function]int64{}
+	recSpecDone = map[string]bool{}
+	bitAxioms = map[int]*Term{}
+	symCache = map[int]map[string]bool{}
+	ufLits = map[string]*Term{}
+	patCache = map[[2]int][]idxPattern{}
+	ufPosCache = map[[2]int][]string{}
+	selSortCache = map[[2]int]map[string]bool{}
+	strFunsDeclared = false
+	selectorOf = map[string]selInfo{"root": {"mkloc", 0}, "path": {"mkloc", 1}, "sarr": {"mkslice", 0}, "soff": {"mkslice", 1},
+		"slen": {"mkslice", 2}, "scap": {"mkslice", 3}, "ppar": {"pfld", 0}, "pfid": {"pfld", 1}, "ppar2": {"pidx", 0}, "pix": {"pidx", 1}}
+	setStringMode(seqStrings)
+}
 
 type axiom struct {
 	t *Term
@@ -56,7 +89,30 @@ func ITag(i *Term) *Term {
 	if i == nilIface() {
 		return IntLit(0)
 	}
+	if i.Op == "app" && strings.HasPrefix(i.Name, "box_") {
+		// box_<sort>_<typeid>
+		if k := strings.LastIndex(i.Name, "_"); k >= 0 {
+			var id int64
+			if _, err := fmt.Sscan(i.Name[k+1:], &id); err == nil {
+				return IntLit(id)
+			}
+		}
+	}
+	if i.Op == "app" && i.Name == "ite" {
+		return Ite(i.Args[0], ITag(i.Args[1]), ITag(i.Args[2]))
+	}
 	return App("itag", "Int", i)
+}
+
+// Unbox extracts the dynamic value of an interface as the given sort.
+func Unbox(i *Term, sort string) *Term {
+	if i.Op == "app" && strings.HasPrefix(i.Name, "box_"+sort+"_") {
+		return i.Args[0]
+	}
+	if i.Op == "app" && i.Name == "ite" {
+		return Ite(i.Args[0], Unbox(i.Args[1], sort), Unbox(i.Args[2], sort))
+	}
+	return UF("unbox_"+sort, sort, i)
 }
 
 // ---- locations ----
@@ -66,18 +122,30 @@ func Root(l *Term) *Term {
 	if l.Op == "app" && l.Name == "mkloc" {
 		return l.Args[0]
 	}
+	if l.Op == "app" && l.Name == "ite" {
+		return Ite(l.Args[0], Root(l.Args[1]), Root(l.Args[2]))
+	}
 	return App("root", "Int", l)
 }
 func PathOf(l *Term) *Term {
 	if l.Op == "app" && l.Name == "mkloc" {
 		return l.Args[1]
 	}
+	if l.Op == "app" && l.Name == "ite" {
+		return Ite(l.Args[0], PathOf(l.Args[1]), PathOf(l.Args[2]))
+	}
 	return App("path", "Path", l)
 }
 func FldLoc(l *Term, fid int) *Term {
+	if l.Op == "app" && l.Name == "ite" {
+		return Ite(l.Args[0], FldLoc(l.Args[1], fid), FldLoc(l.Args[2], fid))
+	}
 	return MkLoc(Root(l), App("pfld", "Path", PathOf(l), IntLit(int64(fid))))
 }
 func IdxLoc(l *Term, i *Term) *Term {
+	if l.Op == "app" && l.Name == "ite" {
+		return Ite(l.Args[0], IdxLoc(l.Args[1], i), IdxLoc(l.Args[2], i))
+	}
 	return MkLoc(Root(l), App("pidx", "Path", PathOf(l), i))
 }
 
@@ -146,6 +214,7 @@ func structOf(t types.Type) *structInfo {
 		fs := sortOf(f.Type())
 		sel := fmt.Sprintf("%s_f%d", si.name, i)
 		si.fields = append(si.fields, sel)
+		selectorOf[sel] = selInfo{"mk" + si.name, i}
 		si.sorts = append(si.sorts, fs)
 		si.fids = append(si.fids, nextFid)
 		fidName[nextFid] = shortType(key) + "." + f.Name()
@@ -231,7 +300,7 @@ func sortOf(t types.Type) string {
 		case u.Info()&types.IsFloat != 0:
 			return "F64"
 		case u.Info()&types.IsString != 0:
-			return "String"
+			return StrSort
 		case u.Kind() == types.UnsafePointer:
 			return "Loc"
 		case u.Kind() == types.UntypedNil:
@@ -281,7 +350,7 @@ func zeroOf(t types.Type) *Term {
 		return IntLit(0)
 	case "Bool":
 		return False
-	case "String":
+	case StrSort:
 		return StrLit("")
 	case "Loc":
 		return NilLoc
